@@ -60,7 +60,8 @@ pub fn spec_for(prop: &str, tier: &str) -> SemSpec {
     let profiles: Vec<String> = match prop {
         "C06" => vec!["surjective".into()],
         "C15" => vec!["with_enums".into()],
-        _ => vec!["surjective".into(), "stratified".into(), "free".into()],
+        "C05" => vec!["surjective".into(), "stratified".into(), "free".into()],
+        _ => vec!["surjective".into(), "stratified".into(), "free".into(), "medium".into()],
     };
     let np = std::env::var("EQV_NPROG").ok().and_then(|v| v.parse().ok()).unwrap_or(np);
     let nh = std::env::var("EQV_NHIST").ok().and_then(|v| v.parse().ok()).unwrap_or(nh);
@@ -86,6 +87,7 @@ pub fn render_opts(p: &Program, spec: &SemSpec) -> RenderOpts {
         with_steps: spec.with_steps,
         xq_cap: spec.xq_cap,
         cases: spec.cases,
+        observe: if spec.property == "C04" { 2 } else { 0 },
     }
 }
 
@@ -631,6 +633,9 @@ pub fn run_sem_campaign(prop: &'static str, tier: &str, seed: u64) -> CampaignRe
                 ev.count("hist.reference_chase_bounded", 1);
             }
             ev.count("hist.closes_judged", s.judged_closes as u64);
+            if s.observed_states > 0 {
+                ev.count("hist.states_observed_inside_close_until", s.observed_states as u64);
+            }
             if s.merges > 0 {
                 ev.count("hist.with_merge", 1);
             }
@@ -670,6 +675,13 @@ pub fn run_sem_campaign(prop: &'static str, tier: &str, seed: u64) -> CampaignRe
             }
         }
         for (f, small, _) in &pp.findings {
+            // Full minimisation (program reduction with recompilation) only for the first few
+            // findings of a run; the others are counted and make the run fail all the same.
+            if violations >= 3 {
+                ev.count("further_violations_not_minimised", 1);
+                violations += 1;
+                continue;
+            }
             // program reduction (sequential; rare)
             let reduced = reduce_program(&pc.program, &spec, small, f.prop, 40);
             let rules = flat::flatten_program(&reduced).unwrap_or_default();
